@@ -25,14 +25,24 @@ const (
 
 var UTC = time.UTC
 
-func Now() Time                 { return sched.Now() }
-func Since(t Time) Duration     { return sched.Now().Sub(t) }
-func Until(t Time) Duration     { return t.Sub(sched.Now()) }
+//go:norace
+func Now() Time { return sched.Now() }
+
+//go:norace
+func Since(t Time) Duration { return sched.Now().Sub(t) }
+
+//go:norace
+func Until(t Time) Duration { return t.Sub(sched.Now()) }
+
+//go:norace
 func Unix(sec, nsec int64) Time { return time.Unix(sec, nsec) }
+
+//go:norace
 func Date(y int, m Month, d, h, mi, s, ns int, loc *Location) Time {
 	return time.Date(y, m, d, h, mi, s, ns, loc)
 }
 
+//go:norace
 func Sleep(d Duration) {
 	if !sched.Active() {
 		time.Sleep(d)
@@ -56,6 +66,7 @@ type Timer struct {
 	fn     func()
 }
 
+//go:norace
 func (t *Timer) arm(d Duration) {
 	t.armed = true
 	t.cancel = sched.AddTimer(sched.Now().Add(d), func() {
@@ -68,6 +79,7 @@ func (t *Timer) arm(d Duration) {
 	})
 }
 
+//go:norace
 func NewTimer(d Duration) *Timer {
 	if !sched.Active() {
 		r := time.NewTimer(d)
@@ -79,17 +91,24 @@ func NewTimer(d Duration) *Timer {
 	return t
 }
 
+//go:norace
 func AfterFunc(d Duration, f func()) *Timer {
 	if !sched.Active() {
 		return &Timer{real: time.AfterFunc(d, f)}
 	}
-	t := &Timer{fn: f}
+	// the callback runs on a thread started by the clock; a closed channel carries the
+	// happens-before edge from the AfterFunc call to the callback, as the real timer does
+	hb := make(chan struct{})
+	close(hb)
+	t := &Timer{fn: func() { <-hb; f() }}
 	t.arm(d)
 	return t
 }
 
+//go:norace
 func After(d Duration) <-chan Time { return NewTimer(d).C }
 
+//go:norace
 func (t *Timer) Stop() bool {
 	if t.real != nil {
 		return t.real.Stop()
@@ -103,6 +122,7 @@ func (t *Timer) Stop() bool {
 	return was
 }
 
+//go:norace
 func (t *Timer) Reset(d Duration) bool {
 	if t.real != nil {
 		return t.real.Reset(d)
@@ -128,6 +148,7 @@ type Ticker struct {
 	stopped bool
 }
 
+//go:norace
 func (t *Ticker) arm() {
 	t.cancel = sched.AddTimer(sched.Now().Add(t.d), func() {
 		if t.stopped {
@@ -138,6 +159,7 @@ func (t *Ticker) arm() {
 	})
 }
 
+//go:norace
 func NewTicker(d Duration) *Ticker {
 	if !sched.Active() {
 		r := time.NewTicker(d)
@@ -152,6 +174,7 @@ func NewTicker(d Duration) *Ticker {
 	return t
 }
 
+//go:norace
 func (t *Ticker) Stop() {
 	if t.real != nil {
 		t.real.Stop()
